@@ -225,6 +225,10 @@ CATALOGUE = [
                 ("        cache_key = field_palette  # need to maintain separate caches\n",
                  "        cache_key = id(field_palette)  # need to maintain separate caches\n")],
          note="the original defect (fixed in /repo): cell cache keyed by id() of a palette"),
+    dict(id="m10_result_fixed_len_memo", prop="C10", file="ak/color.py",
+         old="        return type(self)(self)  # the result must not share state with self\n",
+         new="        return self\n",
+         note="same mutation as m08_fixed_len_self seen through lazy results: result.fixed_len(len(result)) hands out the memoised text"),
     dict(id="m10_nocolor_returns_cached_colored", prop="C10", suite_catches=True, file="ak/color.py",
          old="            return cls._PALETTE_NO_COLOR\n",
          new="            return cls._PALETTE_NO_COLOR or colors_conf.get_cached_obj(cls)\n",
